@@ -43,16 +43,44 @@ type Sched struct {
 	// focus: if non-empty, only sync operations performed by functions whose qualified name
 	// starts with one of these prefixes are scheduling decisions; all other operations proceed
 	// without parking as long as they are enabled (they still park when they would block).
-	focus      []string
-	focusCache map[uintptr]bool
+	focus  []string
+	fcKeys [2048]atomic.Uintptr
+	fcVals [2048]atomic.Uint32 // 0 empty, 1 focus, 2 not focus, 3 runtime frame (skip)
 }
 
 // SetFocus restricts scheduling decisions to call sites in the given packages.
 //
 //go:norace
-func (s *Sched) SetFocus(prefixes []string) {
-	s.focus = prefixes
-	s.focusCache = map[uintptr]bool{}
+func (s *Sched) SetFocus(prefixes []string) { s.focus = prefixes }
+
+// lock-free pc -> class cache (goroutines woken by the same timer instant run concurrently
+// until their next park, so a plain map is not safe here)
+//
+//go:norace
+func (s *Sched) fcGet(pc uintptr) uint32 {
+	h := (pc >> 2) % uintptr(len(s.fcKeys))
+	for i := 0; i < 16; i++ {
+		k := s.fcKeys[(h+uintptr(i))%uintptr(len(s.fcKeys))].Load()
+		if k == pc {
+			return s.fcVals[(h+uintptr(i))%uintptr(len(s.fcKeys))].Load()
+		}
+		if k == 0 {
+			return 0
+		}
+	}
+	return 0
+}
+
+//go:norace
+func (s *Sched) fcPut(pc uintptr, v uint32) {
+	h := (pc >> 2) % uintptr(len(s.fcKeys))
+	for i := 0; i < 16; i++ {
+		idx := (h + uintptr(i)) % uintptr(len(s.fcKeys))
+		if s.fcKeys[idx].CompareAndSwap(0, pc) || s.fcKeys[idx].Load() == pc {
+			s.fcVals[idx].Store(v)
+			return
+		}
+	}
 }
 
 //go:norace
@@ -62,40 +90,33 @@ func (s *Sched) inFocus() bool {
 	}
 	var pcs [12]uintptr
 	n := runtime.Callers(3, pcs[:])
-	if n == 0 {
-		return true
-	}
 	// the first frame outside the verification runtime is the repository call site
 	for i := 0; i < n; i++ {
 		pc := pcs[i]
-		if v, ok := s.focusCache[pc]; ok {
-			if v {
-				return true
+		c := s.fcGet(pc)
+		if c == 0 {
+			name := ""
+			if fn := runtime.FuncForPC(pc - 1); fn != nil {
+				name = fn.Name()
 			}
-			// cached "not focus" is only meaningful for a call-site frame; runtime frames are cached as skip
-			if _, skip := s.focusCache[^pc]; !skip {
-				return false
+			c = 2
+			if hasPrefix(name, "lunar/toolkit-core/verifrt") {
+				c = 3
+			} else {
+				for _, p := range s.focus {
+					if hasPrefix(name, p) {
+						c = 1
+					}
+				}
 			}
-			continue
+			s.fcPut(pc, c)
 		}
-		fn := runtime.FuncForPC(pc - 1)
-		name := ""
-		if fn != nil {
-			name = fn.Name()
+		switch c {
+		case 1:
+			return true
+		case 2:
+			return false
 		}
-		if hasPrefix(name, "lunar/toolkit-core/verifrt") {
-			s.focusCache[pc] = false
-			s.focusCache[^pc] = true // marker: skip this frame
-			continue
-		}
-		v := false
-		for _, p := range s.focus {
-			if hasPrefix(name, p) {
-				v = true
-			}
-		}
-		s.focusCache[pc] = v
-		return v
 	}
 	return true
 }
